@@ -116,13 +116,15 @@ pub fn drive(ctx: &mut Ctx, h: Hostile) {
         }
         Ok(resp) => {
             outcome = "send-ok".to_owned();
-            let r: Result<usize, String> = match h.api {
+            // the text APIs go through encoding_rs, which Miri cannot interpret (inline assembly)
+            let api = if crate::framework::miri_mode() && matches!(h.api, 1 | 3 | 5) { 0 } else { h.api };
+            let r: Result<usize, String> = match api {
                 0 => resp.bytes().map(|v| v.len()).map_err(|e| format!("{e:?}")),
                 1 => resp.text().map(|v| v.len()).map_err(|e| format!("{e:?}")),
                 2 => resp.text_utf8().map(|v| v.len()).map_err(|e| format!("{e:?}")),
                 3 => resp.json::<serde_json::Value>().map(|_| 0).map_err(|e| format!("{e:?}")),
                 4 | 8 => {
-                    let mut reader: Box<dyn Read> = if h.api == 8 { Box::new(resp.split().2) } else { Box::new(resp) };
+                    let mut reader: Box<dyn Read> = if api == 8 { Box::new(resp.split().2) } else { Box::new(resp) };
                     let sizes = [1usize, 3, 4096, 0, 65536];
                     let mut buf = vec![0u8; 65536];
                     let mut n_total = 0usize;
@@ -295,7 +297,7 @@ fn valid_response(rng: &mut Rng) -> Vec<u8> {
     let styles = respgen::random_styles(rng);
     let mut headers: Vec<(String, Vec<u8>)> = Vec::new();
     for _ in 0..rng.range(0, 6) {
-        headers.push((rng.pick(&["X-A", "Set-Cookie", "Content-Type", "Location", "Server", "Content-Encoding"]).to_string(), rng.pick(&[b"a=b".as_slice(), b"text/html; charset=utf-8", b"text/plain; charset=shift_jis", b"/next", b"http://other.test/x", b"identity", b"x", b""]).to_vec()));
+        headers.push((rng.pick(&["X-A", "Set-Cookie", "Content-Type", "Location", "Server", "Content-Encoding"]).to_string(), rng.pick(&[b"a=b".as_slice(), b"text/html; charset=utf-8", b"text/plain; charset=shift_jis", b"text/html;", b"text/plain; q=1", b"a;b", b"application/json; ", b";", b"/next", b"http://other.test/x", b"identity", b"x", b""]).to_vec()));
     }
     let status = *rng.pick(&["HTTP/1.1 200 OK", "HTTP/1.1 404 Not Found", "HTTP/1.1 302 Found", "HTTP/1.0 200 OK", "HTTP/1.1 500 Oops"]);
     let (payload, headers) = if rng.chance(1, 5) {
